@@ -106,6 +106,8 @@ class _P(html.parser.HTMLParser):
         if tag in ('a', 'link') and a.get('href'):
             self.links.append(a['href'])
             for e in self._stack:
+                if tag == 'a':
+                    e.setdefault('hrefs', []).append(a['href'])
                 if e['href'] is None and tag == 'a':
                     e['href'] = a['href']
         if tag in ('tr', 'li', 'div') and a.get('class') is not None:
